@@ -92,6 +92,8 @@ type Sched struct {
 	solo     bool // the root goroutine is running harness code (setup / finish); no thread is running
 	maxSteps int
 	delay    bool // delay-bounded cost model
+	rotate   bool // canonical schedule: round robin (the next thread after the one that ran last) instead of "keep running"
+	reverse  bool // canonical schedule: keep running, then the highest thread id first
 	start    time.Time
 	// OnQuiescent, if set, is called by the scheduler (root goroutine, no thread running) each time no
 	// thread is enabled and before declaring deadlock / letting time pass; it may spawn threads or
@@ -162,6 +164,9 @@ func (t *Thread) park(s *Sched, pc uintptr, label string) {
 	if t.atomic > 0 {
 		return
 	}
+	if s.aborted {
+		runtime.Goexit()
+	}
 	t.site = pc
 	t.siteS = label
 	t.state = stParked
@@ -216,18 +221,16 @@ func Pre(site string) *Thread {
 	if t == nil {
 		return nil
 	}
-	t.park(s, callerPC(2), site)
-	if t.atomic == 0 {
-		t.state = stNative
-		t.siteS = site
-	}
+	t.park(s, callerPC(2), site) // no-op inside an atomic section
+	t.state = stNative
+	t.siteS = site
 	return t
 }
 
 // Enter marks the thread as possibly natively blocked without a scheduling point (used inside rewritten selects).
 func Enter(site string) *Thread {
 	_, t := Self()
-	if t == nil || t.atomic > 0 {
+	if t == nil {
 		return t
 	}
 	t.state = stNative
@@ -239,12 +242,16 @@ func Enter(site string) *Thread {
 // another thread's operation or by the clock) it parks, so that still only one thread runs.
 func Post(t *Thread, site string) {
 	s := cur
-	if t == nil || s == nil || s.aborted || t.atomic > 0 {
+	if t == nil || s == nil || s.aborted {
 		return
 	}
 	if t.blocked {
+		// woken by another thread's operation (or by the clock): must wait for its turn, even inside an atomic section
 		t.blocked = false
+		a := t.atomic
+		t.atomic = 0
 		t.park(s, callerPC(2), "after "+site)
+		t.atomic = a
 		return
 	}
 	t.state = stRunning
@@ -425,6 +432,8 @@ type Options struct {
 	Expect   []Decision
 	MaxSteps int
 	Delay    bool          // delay-bounded cost model: every non-default thread choice costs 1
+	Rotate   bool          // round-robin canonical schedule
+	Reverse  bool          // "keep running, then descending ids" canonical schedule
 	Horizon  time.Duration // virtual-time horizon (default 1h)
 }
 
@@ -433,7 +442,7 @@ type Options struct {
 // the scheduling loop has ended (solo mode) and before the bubble is torn down.
 func Run(t *testing.T, opts Options, setup func(s *Sched), finish func(s *Sched, tr *Trace)) (tr *Trace) {
 	s := &Sched{byGid: map[uint64]*Thread{}, prefix: opts.Prefix, expect: opts.Expect,
-		maxSteps: opts.MaxSteps, delay: opts.Delay}
+		maxSteps: opts.MaxSteps, delay: opts.Delay, rotate: opts.Rotate, reverse: opts.Reverse}
 	if s.maxSteps == 0 {
 		s.maxSteps = 200000
 	}
@@ -543,18 +552,32 @@ func (s *Sched) loop(horizon time.Duration) {
 			}
 			return
 		}
-		// canonical order: the running thread first if still enabled, then ascending ids
-		sort.SliceStable(enabled, func(a, b int) bool {
-			ra, rb := enabled[a] == s.running, enabled[b] == s.running
-			if ra != rb {
-				return ra
+		if s.rotate {
+			// canonical order: round robin, starting after the thread that ran last
+			last := -1
+			if s.running != nil {
+				last = s.running.ID
 			}
-			return enabled[a].ID < enabled[b].ID
-		})
+			n := len(threads) + 1
+			key := func(t *Thread) int { return (t.ID - last - 1 + n) % n }
+			sort.SliceStable(enabled, func(a, b int) bool { return key(enabled[a]) < key(enabled[b]) })
+		} else {
+			// canonical order: the running thread first if still enabled, then ascending ids
+			sort.SliceStable(enabled, func(a, b int) bool {
+				ra, rb := enabled[a] == s.running, enabled[b] == s.running
+				if ra != rb {
+					return ra
+				}
+				if s.reverse {
+					return enabled[a].ID > enabled[b].ID
+				}
+				return enabled[a].ID < enabled[b].ID
+			})
+		}
 		ch := 0
 		if len(enabled) > 1 {
 			cost := make([]int, len(enabled))
-			if enabled[0] == s.running || s.delay {
+			if enabled[0] == s.running || s.delay || s.rotate {
 				for i := 1; i < len(cost); i++ {
 					cost[i] = 1
 				}
